@@ -723,7 +723,11 @@ class FakeModule(object):
                     self._last_decoder = self._last_code.decoder
                     return True
 
-                except (RepeatLeadOutError, RepeatTimeoutExpired):
+                except (
+                    RepeatLeadOutError,
+                    RepeatTimeoutExpired,
+                    ExpectingMoreData
+                ):
                     return True
 
             elif (
@@ -752,7 +756,11 @@ class FakeModule(object):
                         self._last_decoder = self._last_code.decoder
                         return True
 
-                except (RepeatLeadOutError, RepeatTimeoutExpired):
+                except (
+                    RepeatLeadOutError,
+                    RepeatTimeoutExpired,
+                    ExpectingMoreData
+                ):
                     return True
 
             for decoder in possible_decoders:
@@ -770,7 +778,7 @@ class FakeModule(object):
                     except DecodeError:
                         continue
 
-                    except RepeatLeadInError:
+                    except (RepeatLeadInError, ExpectingMoreData):
                         self._last_decoder = decoder
                         return True
 
